@@ -381,6 +381,25 @@ func (g *vfGen) genC03() {
 		in := small[g.intn(len(small))]
 		g.emit(vfOp("xwalk", sc, in, []uint32{0, 3072, 64}[g.intn(3)]))
 	}
+	// a byte-order mark in front of every small sample and literal: the sub-formats of text/plain must be consulted
+	// with the same header the root level saw
+	boms := [][]byte{{0xEF, 0xBB, 0xBF}, {0xFF, 0xFE}, {0xFE, 0xFF}}
+	bn := 0
+	for _, c := range append(vfCorpus(), []byte(`{"a":[1,2,3]}`), []byte(`{"type":"Point"}`), []byte("{\\rtf1 x}"), []byte("BEGIN:VCARD\nVERSION:3.0\n"), []byte("BEGIN:VCALENDAR\n"),
+		[]byte("#!/usr/bin/python\nprint(1)\n"), []byte("a,b\n1,2\n3,4\n"), []byte("{\"a\":1}\n{\"b\":2}\n"), []byte("WEBVTT\n\n"), []byte("%!PS-Adobe-3.0"), []byte("1\n00:00:01,000 --> 00:00:02,000\nx\n")) {
+		if len(c) > 2048 {
+			continue
+		}
+		for _, b := range boms[:1+bn%3] {
+			in := append(append([]byte{}, b...), c...)
+			g.emit(vfOp("walk", in, 0))
+			g.emit(vfOp("walk", in, 3072))
+			if len(in) > 8 {
+				g.emit(vfOp("walk", in, len(in)-1))
+			}
+		}
+		bn++
+	}
 	g.genResExt()
 	g.genTrace()
 	g.genLimFlip()
